@@ -1,6 +1,6 @@
 # claims of MANIFEST.json (executed by mkmanifest.py)
 claim("C13", "Coq theorem on the free-monad reader (run_truncated lifted to the loader) + every-offset correspondence run",
-      "Theorems C13_truncation / C13_extension hold for every byte string, every inflate function and every cut offset of the model's loader "
+      "Theorems C13_truncation / C13_extension / C13_prefix_classified / C13_prefix_never_other (every prefix of a loading file either fails with UnexpectedEof or loads as the very same sprite, decided by its length alone) hold for every byte string, every inflate function and every cut offset of the model's loader "
       "(any file that loads with `rest` left over fails with UnexpectedEof at every cut before the consumed length, and its consumed prefix "
       "followed by anything loads identically); for whole files given as chunk programs (Props/C13_e2e.v, C13_e2e_prefixes): a serialised well-formed program "
       "that satisfies the load condition loads, followed by anything, and every strict prefix of it fails with UnexpectedEof; the check re-proves them, then cuts generated and corpus files at every offset and compares "
